@@ -223,6 +223,48 @@ func (bp *boundsProver) index(fi *FuncInfo, ix *ast.IndexExpr, st *HState) (bool
 			}
 		}
 	}
+	// the index is the key of the range loop over the very slice that is indexed, and the slice
+	// variable is not assigned inside the loop: 0 <= i < len(x) by construction
+	if iobj, xobj := objOf(bp.info, unparen(ix.Index)), objOf(bp.info, unparen(ix.X)); iobj != nil && xobj != nil {
+		for n := bp.l.parent(ix); n != nil; n = bp.l.parent(n) {
+			rs, isRange := n.(*ast.RangeStmt)
+			if !isRange {
+				continue
+			}
+			kid, isId := rs.Key.(*ast.Ident)
+			if !isId || rs.Tok != token.DEFINE || bp.info.Defs[kid] != iobj || objOf(bp.info, unparen(rs.X)) != xobj {
+				continue
+			}
+			if _, isSlice := bp.info.TypeOf(rs.X).Underlying().(*types.Slice); !isSlice {
+				continue
+			}
+			assigned := false
+			ast.Inspect(rs.Body, func(m ast.Node) bool {
+				switch v := m.(type) {
+				case *ast.AssignStmt:
+					for _, l := range v.Lhs {
+						if o := objOf(bp.info, l); o == xobj || o == iobj {
+							if _, isIdent := unparen(l).(*ast.Ident); isIdent {
+								assigned = true
+							}
+						}
+					}
+				case *ast.IncDecStmt:
+					if objOf(bp.info, v.X) == iobj {
+						assigned = true
+					}
+				case *ast.UnaryExpr:
+					if v.Op == token.AND && (objOf(bp.info, v.X) == xobj || objOf(bp.info, v.X) == iobj) {
+						assigned = true
+					}
+				}
+				return true
+			})
+			if !assigned {
+				return true, "index is the key of the range loop over the indexed slice"
+			}
+		}
+	}
 	i := res.str(ix.Index)
 	for _, ln := range bp.lenAliases(fi, ix.X) {
 		if cmpFact(st, ln, i, true) && bp.nonNegativeIndex(fi, ix.Index) {
